@@ -228,9 +228,149 @@ def generated_initcond(ctx):
             ctx.disagreement("generated-initcond:" + ",".join(d), dict(rep, impl=dict(status=st, edges=ce, sets=nk, rho=rh), generated=g))
 
 
+def generated_glue(ctx):
+    """the Lean code GENERATED from twelve ODE entry points (harness/pyglue2lean.py -> Gen/OdeGlue.lean: packing of X0,
+    the argument tuple handed to the right-hand side, unpacking of the solution, derived series, EoNError guards, both
+    return_full_data branches), run by its own driver with `integrate.odeint` replaced by the table of rows the real
+    SciPy returned in the implementation's own call.  The entry points are reached through the *_from_graph wrappers
+    and directly; every returned array is compared (1e-9 relative: the implementation computes in floats)."""
+    import fcntl, subprocess, os, json, inspect, py2lean, pyglue2lean, EoN.analytic as an
+    lean = common.LEAN
+    os.makedirs(os.path.join(lean, ".audit"), exist_ok=True)
+    with open(os.path.join(lean, ".audit", "gen_py2lean.lock"), "w") as lock:
+        fcntl.flock(lock, fcntl.LOCK_EX)
+        try:
+            _, e1 = py2lean.regenerate()
+            _, e2 = pyglue2lean.regenerate()
+            errors = dict(e1, **e2)
+        except Exception as e:
+            errors = {"translator": "crashed: %r" % e}
+        if errors:
+            ctx.disagreement("generated-glue:translation", dict(entry="ODE entry points", errors=errors))
+            return
+        p = common.lake(["build", "driverglue"])
+    if p.returncode != 0:
+        ctx.disagreement("generated-glue:build", dict(entry="ODE entry points", log="\n".join(
+            l for l in (p.stdout + p.stderr).splitlines() if "error" in l)[:1500]))
+        return
+    names = list(pyglue2lean.SIGS)
+    records, stack = [], []
+    orig = {n: getattr(an, n) for n in names}
+    orig_odeint = an.integrate.odeint
+
+    def odeint_wrap(func, X0, times, args=(), **kw):
+        X = orig_odeint(func, X0, times, args=args, **kw)
+        if stack:
+            stack[-1]["X"] = np.array(X, dtype=float)
+        return X
+
+    def make(n):
+        sig = inspect.signature(orig[n])
+
+        def w(*a, **k):
+            ba = sig.bind(*a, **k)
+            ba.apply_defaults()
+            rec = dict(fn=n, args=dict(ba.arguments))
+            stack.append(rec)
+            try:
+                res = orig[n](*a, **k)
+            finally:
+                stack.pop()
+            rec["res"] = res
+            records.append(rec)
+            return res
+        return w
+    an.integrate.odeint = odeint_wrap
+    for n in names:
+        setattr(an, n, make(n))
+    try:
+        for name, e in odes.E.items():
+            if e["scalar"] or e["discrete"]:
+                continue
+            for k in range(ctx.scale(4, 16)):
+                style = e["ic"][k % len(e["ic"])]
+                G, gkind = odes.graph(ctx.rng, small=e["small"])
+                kw, desc = odes.ic_kwargs(name, style, G, ctx.rng)
+                tau, gamma = RATES[ctx.rng.randrange(len(RATES))]
+                before = len(records)
+                try:
+                    odes.call(name, G, kw, tau, gamma, 0.0, ctx.rng.choice([1.0, 2.0]), ctx.rng.choice([3, 5]), k % 2 == 0 and bool(e["full"]), p=0.5)
+                except Exception:
+                    pass
+                for r_ in records[before:]:
+                    r_["via"] = name
+    finally:
+        an.integrate.odeint = orig_odeint
+        for n in names:
+            setattr(an, n, orig[n])
+    reqs, metas = [], []
+    F_ = F
+
+    def q(x):
+        return rs(F_(float(x)))
+    for rec in records:
+        if "X" not in rec or not np.all(np.isfinite(rec["X"])):
+            continue
+        a = rec["args"]
+        rq = dict(fn=rec["fn"], X=[[q(v) for v in row] for row in rec["X"]])
+        sig = dict(p.split(":") for p in pyglue2lean.SIGS[rec["fn"]].split())
+        ok = True
+        for pn, pk in sig.items():
+            v = a[pn]
+            if pk == "S":
+                rq[pn] = q(v)
+            elif pk == "N":
+                rq[pn] = int(v)
+            elif pk == "B":
+                rq[pn] = bool(v)
+            elif pk == "V":
+                rq[pn] = [q(x) for x in np.asarray(v, dtype=float).ravel()]
+            elif pk == "F" and pn == "psihat":
+                th = rec["X"][:, 0]
+                rq[pn] = [[q(t_), q(v(t_))] for t_ in th]
+        if not all(np.isfinite(float(F_(x))) for x in [rq.get("tmin", "0")]):
+            ok = False
+        if ok:
+            reqs.append(rq)
+            metas.append(rec)
+            ctx.count("generated-glue:%s%s" % (rec["fn"], ":full" if a.get("return_full_data") else ""))
+    if not reqs:
+        return
+    exe = os.path.join(lean, ".lake", "build", "bin", "driverglue")
+    data = "\n".join(json.dumps(r_, separators=(",", ":")) for r_ in reqs) + "\n"
+    pr = subprocess.run([exe], input=data, capture_output=True, text=True)
+    lines = pr.stdout.splitlines()
+    if pr.returncode != 0 or len(lines) != len(reqs):
+        raise RuntimeError("driverglue crashed: " + pr.stderr[-1000:])
+    for rec, line in zip(metas, lines):
+        g = json.loads(line)
+        rep = dict(entry=rec["fn"], stream="generated-glue", via=rec.get("via"), args={k: (str(v)[:60]) for k, v in rec["args"].items()})
+        ctx.case(rep, nontrivial=True)
+        if not g.get("ok"):
+            ctx.disagreement("generated-glue-error", dict(rep, generated=g))
+            continue
+        res = rec["res"]
+        bad = None
+        if len(res) != len(g["out"]):
+            bad = "number of returned arrays: impl %d generated %d" % (len(res), len(g["out"]))
+        else:
+            for j, (mine, theirs) in enumerate(zip(g["out"], res)):
+                arr_ = np.asarray(theirs, dtype=float)
+                if "s" in mine:
+                    m_ = np.array([float(F_(x)) for x in mine["s"]])
+                else:
+                    m_ = np.array([[float(F_(x)) for x in row] for row in mine["m"]]).T if mine["m"] and mine["m"][0] else np.zeros(arr_.shape)
+                if m_.shape != arr_.shape or not np.allclose(m_, arr_, rtol=1e-9, atol=1e-9):
+                    bad = "returned array %d differs (shape %s vs %s)" % (j, m_.shape, arr_.shape)
+                    break
+        if bad:
+            ctx.disagreement("generated-glue:" + bad[:200], rep)
+
+
 def run(ctx):
     drv = common.LeanDriver()
     generated_initcond(ctx)
+    generated_glue(ctx)
     probe_known(ctx)
     probe_known2(ctx)
     probe_known3(ctx)
